@@ -206,6 +206,15 @@ def _report(ctx, out, what):
     return False
 
 
+def _typed_start(ctx, start):
+    """The start vertex as the library's callers pass it: a Python int, or a numpy scalar out of an index array."""
+    name = ctx.rng.choice(["int"] * 5 + ["int64", "uint8", "uint8", "uint16", "int16", "int32", "uint32"])
+    if name == "int" or start > np.iinfo(getattr(np, name)).max:
+        return start
+    ctx.cls("start type|" + name)
+    return getattr(np, name)(start)
+
+
 def check_encode(ctx, case):
     dsw = import_dsw()
     k, start, bits, fast = case["k"], case["start"], case["bits"], case["fast"]
@@ -214,7 +223,7 @@ def check_encode(ctx, case):
     msg = gens.as_message(bits, case["dtype"])
     live = int((G.out_degrees(acc) > 0).sum())
     ref, digits = oracles.ref_encode(bits, acc, start, fast, shuf)
-    out = monitored(dsw.encode, encode_budget(len(bits), live), msg, acc, start, is_faster=fast, shuffles=shuf)
+    out = monitored(dsw.encode, encode_budget(len(bits), live), msg, acc, _typed_start(ctx, start), is_faster=fast, shuffles=shuf)
     if not _report(ctx, out, "encode"):
         if out.kind != "ok":
             ctx.fail("encode-" + out.kind, "encode %s; reference strand %s" % (out.describe(), ref))
@@ -287,7 +296,7 @@ def check_decode_walk(ctx, case):
             ctx.cls("decode|trailing zero digit")
     before = contracts.EVALS["decode.ensure.bits_are_reference"]
     width = ctx.rng.choice([int, int, int, np.int64, np.uint16, np.uint64])(L) if L < 60000 else L
-    out = monitored(dsw.decode, decode_budget(len(strand), L), strand, width, acc, start, is_faster=fast, shuffles=shuf)
+    out = monitored(dsw.decode, decode_budget(len(strand), L), strand, width, acc, _typed_start(ctx, start), is_faster=fast, shuffles=shuf)
     ctx.cls("decode|width type %s" % type(width).__name__)
     if contracts.EVALS["decode.ensure.bits_are_reference"] == before and out.kind == "ok":
         ctx.fail("contract-bypassed", "decode returned without evaluating its postcondition")
@@ -333,7 +342,7 @@ def floors(agg, tier):
         out.append("decode contract evaluated %d times" % m.get("contract-evaluations:decode.ensure.bits_are_reference", 0))
     for name, need in (("encode|nontrivial", 500), ("decode|nontrivial", 300), ("encode|radix3|normal", 100),
                        ("encode|radix4|fast", 100), ("encode|radix2|fast", 100), ("encode|radix1|normal", 100),
-                       ("decode|trailing zero digit", 50), ("decode|fast|table1", 50), ("decode|width type uint16", 100),
+                       ("decode|trailing zero digit", 50), ("decode|fast|table1", 50), ("decode|width type uint16", 100), ("start type|uint8", 200), ("start type|uint16", 200),
                        ("edit sequences (same accessor object overwritten in place)", 100)):
         if c.get(name, 0) < need:
             out.append("%s observed %d < %d" % (name, c.get(name, 0), need))
